@@ -309,10 +309,25 @@ class Interp:
             params = params[1:]
         defaults = fn.args.defaults
         env = dict(closure) if closure else {}
-        if fn.args.vararg is not None or fn.args.kwarg is not None or fn.args.kwonlyargs:
-            raise Unsupported(f"variadic signature of {qual}")
+        kwargs = dict(kwargs)
+        if fn.args.vararg is not None:
+            env[fn.args.vararg.arg] = tuple(args[len(params):])
+            args = args[:len(params)]
         if len(args) > len(params):
             raise Unsupported(f"too many arguments for {qual}")
+        for a, d in zip(fn.args.kwonlyargs, fn.args.kw_defaults):
+            if a.arg in kwargs:
+                env[a.arg] = kwargs.pop(a.arg)
+            elif d is not None:
+                env[a.arg] = self.ev(d, {})
+            else:
+                raise Unsupported(f"missing keyword argument {a.arg} of {qual}")
+        if fn.args.kwarg is not None:
+            env[fn.args.kwarg.arg] = {k: kwargs.pop(k) for k in list(kwargs)
+                                      if k not in params}
+        extra = [k for k in kwargs if k not in params]
+        if extra:
+            raise Unsupported(f"unexpected keyword argument {extra[0]} of {qual}")
         for i, p in enumerate(params):
             if i < len(args):
                 env[p] = args[i]
